@@ -36,7 +36,11 @@ META = {
                   "answered err: or with the stream length; malformed numbers are left to C15), strictly increasing message times "
                   "(time = reception time = lifecycle start + timestamp); 'eventually' = all messages of the file reported "
                   "(FileInfo) and three consecutive sentinel round trips (each forces a full server loop iteration) without "
-                  "a stream frame, limit 90 s. One-pass streams and text (non-binary) streams are not covered.",
+                  "a stream frame, limit 90 s. Window ends beyond the stream (up to u64::MAX) mean 'to the end' for the initial window and for every change "
+                  "(the contract uses the window REQUESTED, not the reply's echo). Files opened with sort:true: stream order = timestamp order "
+                  "(generated logs: one lifecycle per ECU, distinct timestamps, some messages delivered late); time lookups only where the "
+                  "stream is ordered by time. A stalling client (no reads for 3-6 s with tens of MB pending) must still get the whole window. "
+                  "One-pass streams are not covered.",
 }
 
 KFS = ["KF_C16_SearchNextSkips", "KF_C16_SearchUnfiltered", "KF_C16_IndexLookupUnfiltered"]
@@ -153,7 +157,7 @@ def check(ctx):
     trace_srv = ctx.path("trace-srv.ndjson")
     nrand = 75 if quick else 600
     si = drive(binp, ["server", "--adlt", adlt, "--work", ctx.work, "--scenarios", sscn, "--random", str(nrand), "--seed", str(ctx.seed),
-                      "--out", trace_srv, "--conns", "10", "--logs", "4" if quick else "8", "--throttles", "32:2,8:4,2:3", "--big", "70000", "--extremes", "--max-n", "1500" if quick else "6000"])
+                      "--out", trace_srv, "--conns", "10", "--logs", "4" if quick else "8", "--throttles", "32:2,8:4,2:3", "--big", "70000", "--extremes", "--sorted", "--fat", "40000"] + ([] if quick else ["--all-stalls"]) + [ "--max-n", "1500" if quick else "6000"])
     sw = c.kf_switches("C16", KFS)
     vs = c.validate_trace(ctx, "srv", "StreamTrace.tla", trace_srv, sw, timeout=3000, xmx="8g")
     ctx.add_tlc("trace-validation-server", vs.res)
@@ -179,8 +183,16 @@ def check(ctx):
         hit = False
         multi = collections.Counter()
         combo = ""
-        if str(evs[0]["hdr"].get("src", "")).startswith("extreme:"):
+        src = str(evs[0]["hdr"].get("src", ""))
+        if src.startswith("extreme:"):
             paths["extreme_sessions"] += 1
+        if src == "stalling-client":
+            paths["stalling_client_sessions"] += 1
+        if evs[0]["hdr"].get("sort"):
+            paths["sorted_open_sessions"] += 1
+            if src == "sorted":
+                paths["sorted_with_late_messages"] += 1
+                paths["sorted_index_lookups"] += sum(1 for e in evs if e["ev"] == "ok_bsearch" and e["key"] == "index")
         for e in evs:
             if e["ev"] == "bin_msgs":
                 if e["n"]:
@@ -250,7 +262,7 @@ def check(ctx):
     ctx.extra["path_hits"] = dict(sorted(paths.items()))
     ctx.extra["kf_switches"] = sw
     needed = ["data_frames", "query_end_marker", "ok_change", "quiescent", "search_continued", "ok_bsearch", "created_during_parsing",
-              "window_empty", "window_in_several_frames", "big_window_frames", "filtered_frame_4096_or_more", "text_stream_runs", "text_run_4096_or_more", "extreme_sessions", "filters_with_disabled", "filters_with_marker",
+              "window_empty", "window_in_several_frames", "big_window_frames", "filtered_frame_4096_or_more", "text_stream_runs", "text_run_4096_or_more", "extreme_sessions", "stalling_client_sessions", "sorted_with_late_messages", "sorted_index_lookups", "filters_with_disabled", "filters_with_marker",
               "search_on_event", "lookup_on_event", "search_with_event", "lib_stream", "lib_query", "lib_grow"] + ["search_page_size_%d" % k for k in range(1, 6)]
     for kd in ("stream", "query"):      # every combination of filter kinds, for streams and for queries
         needed += ["filters_%s_%s" % (kd, cb) for cb in ("none", "pos", "neg", "event", "event+pos", "event+neg", "neg+pos", "event+neg+pos")]
